@@ -498,7 +498,7 @@ func init() {
 	})
 	Register(&PropSpec{
 		ID: "C13", Level: "exploration",
-		Rule: "C12 workload plus hostile senders: garbage / other-key / missing signatures, another key's public key, non-validator (outsider and former-validator) senders, wrong source id, wrong decimal, wrong/repeated/skipped nonces up to max+1, timestamps +4/+5/+6/+7/+60 s, transaction sizes 999/1000/1001/1500 bytes, replayed bytes; for every submission the store digest (oracle, assets, delegation, operator, dogfood, avs, bank) and the in-memory oracle dump are taken before and after: admitted (nonce advanced or code 0) only if the statement's admission predicate holds, not admitted => nothing changed (stores and memory), admitted-but-not-counted => only that validator's nonce changed, counted only if the counting predicate holds, at most max-nonce admissions per validator/feeder/round; non-trivial = >= 5 admitted, >= 5 rejected, >= 1 admitted-not-counted and >= 1 forged signature tried",
+		Rule: "C12 workload plus hostile senders: garbage / other-key / missing signatures, no signer info at all with a dummy signature, another key's public key, non-validator (outsider and former-validator) senders, wrong source id, wrong decimal, wrong/repeated/skipped nonces up to max+1, timestamps +4/+5/+6/+7/+60 s, transaction sizes 999/1000/1001/1500 bytes, replayed bytes; for every submission the store digest (oracle, assets, delegation, operator, dogfood, avs, bank) and the in-memory oracle dump are taken before and after: admitted (nonce advanced or code 0) only if the statement's admission predicate holds, not admitted => nothing changed (stores and memory), admitted-but-not-counted => only that validator's nonce changed, counted only if the counting predicate holds, at most max-nonce admissions per validator/feeder/round; non-trivial = >= 5 admitted, >= 5 rejected, >= 1 admitted-not-counted and >= 1 forged signature tried",
 		Assumptions: []string{"rejecting a valid submission is recorded as a liveness note, not a violation (the statement's 'only if' direction is the safety claim)", "the in-memory oracle state is observed through the verif-tagged dump hooks"},
 		QuickRuns:   500, ThoroughRuns: 8000,
 		GenConfig: oracleConfig,
